@@ -193,6 +193,25 @@ theorem C17_called_or_catchable (pr : Prim) (tin : List InArm) (tout : List OutA
   · right
     simp [he]
 
+/-- **Struct methods.** A method call reaches the same conversion as a function call whenever it
+supplies at least as many arguments as the method has parameters; with fewer it is refused with a
+catchable error and the method does not run. So every theorem above about `call` holds for methods. -/
+theorem C17_method_path (pr : Prim) (tin : List InArm) (tout : List OutArm) (sig : Sig)
+    (body : List GoVal → List GoVal) (args : List SVal) :
+    (sig.params.length ≤ args.length →
+      callVia .method pr tin tout sig body args = call pr tin tout sig body args) ∧
+    (args.length < sig.params.length →
+      (callVia .method pr tin tout sig body args).received = none ∧
+      (callVia .method pr tin tout sig body args).result = .throw .missingArgument) ∧
+    callVia .fn pr tin tout sig body args = call pr tin tout sig body args := by
+  refine ⟨?_, ?_, ?_⟩
+  · intro h
+    have : ¬ args.length < sig.params.length := by omega
+    simp [callVia, this]
+  · intro h
+    simp [callVia, h]
+  · simp [callVia]
+
 /-! ### the generic converter -/
 
 /-- **Generic converter, exact.** `utils.Convert[T]` / `utils.ConvertFromIndex[T]` for a predeclared
